@@ -11,7 +11,7 @@ PID = "C07"
 
 
 def build(tier, rng, work):
-    return [PP.eager_graph(n, with_expected=True) for n in PP.plan(tier)]
+    return [PP.eager_graph(n, with_expected=True) for n in PP.plan(tier)] + PP.pair_graphs(rng, 12 if tier == "quick" else 160, with_expected=True)
 
 
 def run(tier, seed):
